@@ -276,8 +276,8 @@ def g4(rep, w):
                     r.ok(key + ' (retained by design: %s)' % tab[fld]['why'])
                     continue
                 # bounded: the call is only reachable through the false edge of a `len() >= CONST` test
-                if bounded_by_len_test(f, bi):
-                    r.ok(key + ' (dominated by a length test against a constant)')
+                if bounded_by_len_test(f, bi, org, pl0['l']):
+                    r.ok(key + ' (behind a length test against a constant: stored below it, or after an element was removed)')
                 else:
                     r.bad('Vm.%s grows in %s' % (fld, f.path), 'a Root is stored into Vm.%s by code reachable from Vm::run with no '
                           'size bound: the objects it roots are never reclaimed however long the program runs' % fld, f.loc(t.get('sp')))
@@ -286,9 +286,22 @@ def g4(rep, w):
             r.note('retained-by-design entry with no run-time store site on this tree: ' + fld)
 
 
-def bounded_by_len_test(f, call_block):
+SHRINKERS = ('std::vec::Vec::remove', 'std::vec::Vec::swap_remove', 'std::vec::Vec::pop', 'std::collections::VecDeque::pop_front',
+             'std::collections::VecDeque::pop_back', 'std::collections::VecDeque::remove')
+
+
+def bounded_by_len_test(f, call_block, org=None, recv=None):
     """some dominator of call_block ends in a switch on a comparison whose operands are a `len()` result and a
-    constant, and call_block is on the side where len < const"""
+    constant, and call_block is reached from the side where len >= const only after a call that takes one element out of the same
+    container (`if len >= N { v.remove(0); } v.push(x)`), or not at all (`if len >= N { .. } else { v.push(x) }`)"""
+    shrink = set()
+    if org is not None and recv is not None:
+        mine = {q for q in org.get(recv, ()) if len(q) >= 3}
+        for bi, t in f.calls():
+            if strip_generics(callee_name(t) or '') in SHRINKERS and t['args']:
+                p0 = op_place(t['args'][0])
+                if p0 is not None and mine & set(org.get(p0['l'], ())):
+                    shrink.add(bi)
     dom = f.dominators().get(call_block, set())
     for b in dom:
         t = f.blocks[b]['t']
@@ -305,13 +318,14 @@ def bounded_by_len_test(f, call_block):
                     if k is not None and 'v' in k:
                         # which edge leads to the call?
                         zero_target = [c[1] for c in t['cases'] if c[0] == 0]
-                        into_false = zero_target and call_block in f.reachable_blocks(zero_target[0]) and \
-                            call_block not in f.reachable_blocks(t['else'], avoid=())
-                        into_true = call_block in f.reachable_blocks(t['else']) and not (
-                            zero_target and call_block in f.reachable_blocks(zero_target[0]))
-                        if rr['op'] in ('Ge', 'Gt', 'Eq') and into_false:
+                        via_false = bool(zero_target) and call_block in f.reachable_blocks(zero_target[0])
+                        via_true = call_block in f.reachable_blocks(t['else'])
+                        # the same, not counting paths through a block that takes an element out first
+                        raw_false = bool(zero_target) and call_block in f.reachable_blocks(zero_target[0], avoid=shrink)
+                        raw_true = call_block in f.reachable_blocks(t['else'], avoid=shrink)
+                        if rr['op'] in ('Ge', 'Gt', 'Eq') and via_false and not raw_true:
                             return True
-                        if rr['op'] in ('Lt', 'Le') and into_true:
+                        if rr['op'] in ('Lt', 'Le') and via_true and not raw_false:
                             return True
     return False
 
